@@ -47,10 +47,11 @@ def const_table_ranges(prog, src):
     (source dump): `TABLE[i]` then reads a value in [min, max] whatever the index"""
     from .src import lit_int
     out = {}
+    lens = {}
     for c in prog.consts.values():
         path = c["path"]
         mod, _, name = path.rpartition("::")
-        if not re.match(r"^&?('static )?\[(u8|u16|u32|u64|usize|i8|i16|i32|i64|isize)(; \d+)?\]$", c.get("ty", "")):
+        if not re.match(r"^&?('static )?\[\w+(; \d+)?\]$", c.get("ty", "")):
             continue
         fstem = "src/" + mod.replace("::", "/")
         hit = src.const(name, file=fstem + ".rs") or src.const(name, file=fstem + "/mod.rs")
@@ -62,12 +63,15 @@ def const_table_ranges(prog, src):
         vals = None
         if e.get("k") == "lit" and e.get("t") == "bytestr":
             vals = list(e["v"])
+            lens[path] = len(vals)
         elif e.get("k") == "array":
             vals = [lit_int(x) for x in e["elems"]]
+            lens[path] = len(vals)
         elif e.get("k") == "repeat":
             vals = [lit_int(e["e"])]
-        if vals and all(v is not None for v in vals):
+        if vals and all(v is not None for v in vals) and re.search(r"\[(u8|u16|u32|u64|usize|i8|i16|i32|i64|isize)", c["ty"]):
             out[path] = (min(vals), max(vals))
+    prog.const_lens = lens
     return out
 
 
